@@ -13,6 +13,9 @@ props = {
  "C05": dict(
    text="Theorem c05_validity: for every placement of the six timestamps, every skew and every clock value (> 1970+skew) the modelled decision satisfies soundness (inside every window plus skew, ordered bounds, fresh IssueInstant, reported expiry = SessionNotOnOrAfter else Conditions NotOnOrAfter) and completeness (strictly inside => accepted); closed by lia. Correspondence: ~2500 signed Responses under a frozen virtual clock (exhaustive one-dimensional sweeps x skew x syntax, NotBefore x NotOnOrAfter products, random combinations), model = implementation incl. the boundary seconds.",
    note="Assumes the virtual clock patch (saml2.time_util.time/datetime), whole-second clock, xmlsec1 stand-in. The equality second now == bound+skew is left free in the spec but compared model-vs-code.", design="6/C05"),
+ "C06": dict(
+   text="Theorem c06_correlation_status_shape: for every outstanding-request set (any size), Response/SubjectConfirmation InResponseTo placement, allow_unsolicited, status, version and assertion shape the modelled decision satisfies correlation (identity only for an outstanding id, all confirmation InResponseTo equal to it, stored context handed back), status (non-Success never yields identity; error class as the code's name demands), shape, and two completeness clauses; by induction over the confirmation list. c06_table_names / c06_table_injective are obligations over the STATUSCODE2EXCEPTION table regenerated from the live source on every run. Correspondence: ~1500 signed Responses (complete products per group + random mixtures).",
+   note="Assumes browser binding, the xmlsec1 stand-in, valid signature/times/audience in every case. The boolean spec evaluated on implementation outputs is written next to the Prop spec; their equivalence is not yet a theorem for C06.", design="6/C06"),
 }
 checks = []
 for pid, d in sorted(props.items()):
